@@ -17,7 +17,10 @@ LEVEL_NOTE = ("theorems are about model/Decimal.v + model/Scaling.v + model/Valu
               "are not labels of the current table (whatever they do - parse as a number, raise - is not judged and not tied), "
               "phys2raw(None), factors whose float() underflows to 0.0; scalings whose exact product or result needs more than 28 "
               "significant digits are outside the property's quantifier: neither the search nor the model tie looks at them (raw values, default limits and arbitrary "
-              "physical values outside the envelope are counted and skipped); logging output and exception texts are never compared")
+              "physical values outside the envelope are counted and skipped); logging output and exception texts are never compared; "
+              "what phys2raw returns for a physical value that is not the image of a raw value (rounding direction, .5 ties), which key "
+              "a label carried by several keys converts to, the order of a value table and the winner among colliding key spellings "
+              "are open: compared modulo the choice or not generated")
 
 # (factor, offset) as the strings a DBC/ARXML/... reader would hand to Signal(...)
 SCALINGS = [
@@ -245,7 +248,7 @@ def run(chk):
                 "factor zero) x widths 1..12 x signed/unsigned with EVERY raw value; widths 13..64 at both ends, around 0 and random "
                 "interior; value tables of 0..20 labels (duplicate labels, int/str key collisions, about 30%% of the labels spelled like "
                 "numbers: '1', '2.5e1', ' 7 ', 'NaN', ... on keys they do not scale to); phys2raw on labels and on "
-                "arbitrary decimals incl. exact .5 ties.  histories on one live Signal object: after each edit of the value table "
+                "the images of raw values written in other decimal representations.  histories on one live Signal object: after each edit of the value table "
                 "(add_values, values = dict, values[k] = v, del, pop, clear, update, a label moving to another key) and of "
                 "factor/offset/size/is_signed/set_min(None)/set_max(None), every label, table key and range end is "
                 "converted again and compared with the oracle for the CURRENT state and with a freshly built signal.  label texts include "
@@ -265,14 +268,31 @@ def run(chk):
     lines, expect, info = [], [], []
 
     ignores = []
+    canons = []
 
-    def add(cmd, groups, exp, inf, ignore=()):
+    def sort_table_group(g):
+        """a value table as a flat key/label list, in key order (the property fixes no table order)"""
+        return [z for pair in sorted(zip(g[0::2], g[1::2])) for z in pair]
+
+    def canon_402(groups):
+        return groups[:5] + [sort_table_group(groups[5])] if len(groups) == 6 else groups
+
+    def canon_labels(keysets):
+        """a label carried by several keys may convert to ANY of them: answers [1, k] with k among the label's keys are
+        identified (replaced by the lowest key) on both sides"""
+        def f(groups):
+            return [[1, min(ks)] if (len(g) == 2 and g[0] == 1 and g[1] in ks) else g for g, ks in zip(groups, keysets)] \
+                if len(groups) == len(keysets) else groups
+        return f
+
+    def add(cmd, groups, exp, inf, ignore=(), canon=None):
         """`ignore`: indices of answer groups that lie outside the property's quantifier (e.g. the default maximum of a signal
         whose upper raw bound needs more than 28 digits): projected away on both sides before comparing"""
         lines.append(core.fmt_case(cmd, groups))
         expect.append(exp)
         info.append(inf)
         ignores.append(tuple(ignore))
+        canons.append(canon)
 
     # ---------------- 1. decimal arithmetic tie ----------------
     n_dec = 24000 if not thorough else 400000
@@ -352,14 +372,14 @@ def run(chk):
             if lab in seen or len(seen) >= 4:
                 continue
             seen.add(lab)
-            if not (lo <= k <= hi):
+            if not all(lo <= k2 <= hi for k2, l2 in table.items() if l2 == lab):
                 continue
             chk.count("frame-route:encode-by-label")
             try:
                 enc = bytes(fr.encode({name: lab}))
             except Exception as e:
                 enc = repr(e)
-            if enc != payload_of(k, size):
+            if enc not in [payload_of(k2, size) for k2, l2 in table.items() if l2 == lab]:
                 chk.violation("frame-route-encode-label", "Frame.encode of a label does not write the label's raw key",
                               dict(inp, label=lab), payload_of(k, size).hex(), enc.hex() if isinstance(enc, bytes) else enc)
 
@@ -374,6 +394,8 @@ def run(chk):
                 lab = rng.choice(NUMERIC_LOOKING)     # a value choice spelled like a number is still a label
             elif rng.random() < 0.15:
                 lab = rng.choice(EDGE_LABELS)         # empty / blank / odd texts are labels all the same
+            if any(int(k0) == k for k0, _ in src):
+                continue                      # two spellings of one key (1 and '1') do not make a value table: which entry wins is open
             key = str(k) if rng.random() < 0.25 else k
             src.append((key, lab))
         d = {}
@@ -428,8 +450,8 @@ def run(chk):
             chk.count("factor-zero")
         mf, ef = tup(sig.factor)
         mo, eo = tup(sig.offset)
-        if dict(sig.values) != exp_table or list(sig.values.keys()) != list(exp_table.keys()):
-            chk.violation("table-normalise", "value table keys are not the int() of the given keys in order", inp, exp_table, dict(sig.values))
+        if dict(sig.values) != exp_table:
+            chk.violation("table-normalise", "value table keys are not the int() of the given keys", inp, exp_table, dict(sig.values))
         try:
             rr = sig.calculate_raw_range()
         except Exception as e:
@@ -463,7 +485,8 @@ def run(chk):
         add(402, [header, tflat],
             [tup(sig.factor), tup(sig.offset), [rr[0], rr[1]], tup(sig.min), tup(sig.max), [z for k, v in sig.values.items() for z in (k, lab_id(v))]],
             dict(construct=inp),
-            ignore=[g for g, b in ((3, lo), (4, hi)) if not inside_envelope(b, mf, ef, mo, eo)])
+            ignore=[g for g, b in ((3, lo), (4, hi)) if not inside_envelope(b, mf, ef, mo, eo)],
+            canon=canon_402 if len(exp_table) > 1 else None)
         # -- per raw value
         out403, traws = [], []
         nontriv_scaling = not (F == 1 and O == 0)
@@ -537,9 +560,10 @@ def run(chk):
                         as_num = round((Fraction(pv_) - O) / F) if kind == "num" else None
                     except Exception:
                         as_num = None
-                    chk.count("label-numeric-looking:%s" % ("scales-elsewhere" if as_num != keys[0] else "coincides-with-key"))
-                if r != keys[0] or type(r) is not int:
-                    chk.violation(edge_key("label-to-raw", lab), "a label does not convert to its raw key", dict(inp, label=lab), keys[0], r)
+                    chk.count("label-numeric-looking:%s" % ("scales-elsewhere" if as_num not in keys else "coincides-with-key"))
+                # a label carried by several keys may convert to any of them (the property names no tie-break)
+                if r not in keys or type(r) is not int:
+                    chk.violation(edge_key("label-to-raw", lab), "a label does not convert to a raw key that carries it", dict(inp, label=lab), keys, r)
                 elif len(keys) == 1:
                     try:
                         nv = C.DecodedSignal(r, sig).named_value
@@ -552,43 +576,42 @@ def run(chk):
             args406 += [lab_id(lab)] + ([1] + tup(pv_) if kind == "num" else [0, 0, 0])
             out406.append(got if isinstance(got[-1], int) else [0])
         if labs:
-            add(405, [header, tflat, [lab_id(l) for l in labs]], out405, dict(signal=inp, labels=labs))
-            add(406, [header, tflat, args406], out406, dict(signal=inp, str_arguments=texts406))
+            keysets = [[k for k, v in exp_table.items() if v == l] for l in labs]
+            cl = canon_labels(keysets) if any(len(ks) > 1 for ks in keysets) else None
+            add(405, [header, tflat, [lab_id(l) for l in labs]], out405, dict(signal=inp, labels=labs), canon=cl)
+            add(406, [header, tflat, args406], out406, dict(signal=inp, str_arguments=texts406), canon=cl)
         # -- the same conversions reached through a frame / a matrix carrying this signal
         if 1 <= size <= 64:
             fr, db = make_routes(sig)
             praws = sorted({k for k in list(exp_table)[:6] if lo <= k <= hi} | {lo, hi, rng.randrange(lo, hi + 1), rng.randrange(lo, hi + 1)})
             frame_probe(sig, fr, db, size, lo, hi, exp_table, F, O, (mf, ef, mo, eo), praws, inp, (fs, os_, size, signed))
-        # -- phys2raw of arbitrary decimals (rounding mechanism): exact quotient representable => round-half-even of it
-        vs = []
+        # -- the physical value of a raw value, written in another decimal representation (minimal coefficient, or padded with
+        #    zeros), converts back to that raw value.  What phys2raw does with a value that is NOT the image of a raw value (which
+        #    neighbour, which way an exact .5 goes) is not stated by the property: neither judged nor tied.
         for _ in range(6 if not thorough else 12):
             r0 = rng.randrange(lo, hi + 1)
-            half = rng.choice([Fraction(1, 2), Fraction(1, 2), Fraction(-1, 2), Fraction(3, 10), Fraction(-7, 10), Fraction(1, 4), Fraction(49, 100), Fraction(51, 100), 0])
-            q = r0 + half
-            val = q * F + O
-            sd = sig_digits_fr(val)
-            if sd is None or sd > 28:
+            if not inside_envelope(r0, mf, ef, mo, eo):
                 continue
-            # a Decimal denoting val exactly
+            val = r0 * F + O
             k = 0
             while (val * 10 ** k).denominator != 1:
                 k += 1
-            v = mk(int(val * 10 ** k), -k)
-            vs.append((v, q))
-        for v, q in vs:
+            pad = rng.choice([0, 0, 1, 3])
+            m = int(val * 10 ** k) * 10 ** pad
+            if len(str(abs(m))) > 28:
+                continue
+            v = mk(m, -k - pad)
             try:
                 r = sig.phys2raw(v)
             except Exception as e:
                 chk.violation("exception", "phys2raw raised on a decimal", dict(inp, value=str(v)), None, repr(e))
                 continue
-            sdq = sig_digits_fr(q)
             chk.case((fs, os_, size, signed, "phys2raw", str(v)), True)
-            chk.count("phys2raw-arbitrary")
-            sdd = sig_digits_fr(Fraction(v) - O)
-            if sdq is not None and sdq <= 28 and sdd is not None and sdd <= 28:
-                if r != round(q) or type(r) is not int:
-                    chk.violation("phys2raw-round", "phys2raw is not the half-even rounding of (value-offset)/factor", dict(inp, value=str(v)), round(q), r)
-                add(404, [header, tflat, tup(v)], [[1, r]], dict(signal=inp, value=str(v)))
+            chk.count("phys2raw-image-other-representation")
+            if r != r0 or type(r) is not int:
+                chk.violation("roundtrip-representation", "the physical value of a raw value, written with another coefficient/exponent, does not convert back to it",
+                              dict(inp, raw=r0, value=str(v)), r0, r)
+            add(404, [header, tflat, tup(v)], [[1, r]], dict(signal=inp, value=str(v)))
 
     # widths 1..12: every raw value is judged; the model tie takes every raw up to width `tie_full` and a sample above
     tie_full = 8 if not thorough else 10
@@ -649,7 +672,7 @@ def run(chk):
         lo, hi = raw_range(size, signed)
         try:
             fresh = C.Signal("fresh", size=size, is_signed=signed, factor=Fd, offset=Od, values=dict(cur))
-            if dict(sig.values) != cur or list(sig.values.keys()) != list(cur.keys()):
+            if dict(sig.values) != cur:
                 chk.violation("history-table", "the signal's value table is not what the edits made it", inp, cur, dict(sig.values))
                 return False
             # label -> key for every label of the current table; labels that left the table are no labels any more
@@ -668,16 +691,16 @@ def run(chk):
                 kind, pv_ = parse_dec(lab)
                 chk.case(("hist-label", tuple(hist), lab), True)
                 if lab in cur.values():
-                    exp = next(k for k, v in cur.items() if v == lab)
+                    exp = [k for k, v in cur.items() if v == lab]       # several keys: any of them
                     chk.count("history-label-lookups")
                     if lab in EDGE_SET:
                         chk.count("history-label-edge:" + ("empty" if lab == "" else "blank" if not lab.strip() else "other"))
-                    if r != exp or type(r) is not int:
-                        chk.violation(edge_key("history-label-to-raw", lab), "after editing the value table a label does not convert to its current raw key",
+                    if r not in exp or type(r) is not int:
+                        chk.violation(edge_key("history-label-to-raw", lab), "after editing the value table a label does not convert to a current raw key that carries it",
                                       dict(inp, label=lab), exp, r)
                     elif list(cur.values()).count(lab) == 1 and sig.raw2phys(r, decode_to_str=True) != lab:
                         chk.violation(edge_key("history-label-roundtrip", lab), "label -> raw -> named value does not return the label after an edit", dict(inp, label=lab), lab, None)
-                if r != rf:
+                if r != rf and list(cur.values()).count(lab) == 1:
                     chk.violation("history-vs-fresh", "phys2raw(str) on the edited signal differs from a freshly built signal with the same table and fields",
                                   dict(inp, label=lab), rf, r)
                 texts.append(lab)
@@ -723,11 +746,14 @@ def run(chk):
         header = [size, int(signed)] + tup(Fd) + tup(Od)
         tflat = [z for k, v in cur.items() for z in (k, lab_id(v))]
         add(402, [header, tflat], [tup(sig.factor), tup(sig.offset), [rr[0], rr[1]], tup(cmin), tup(cmax), tflat], dict(history=inp),
-            ignore=[g for g, b in ((3, lo), (4, hi)) if not inside_envelope(b, mf, ef, mo, eo)])
+            ignore=[g for g, b in ((3, lo), (4, hi)) if not inside_envelope(b, mf, ef, mo, eo)],
+            canon=canon_402 if len(cur) > 1 else None)
         if traws:
             add(403, [header, tflat, traws], out403, dict(history=inp, raws=traws))
         if texts:
-            add(406, [header, tflat, args406], out406, dict(history=inp, str_arguments=texts))
+            keysets = [[k for k, v in cur.items() if v == l] for l in texts]
+            add(406, [header, tflat, args406], out406, dict(history=inp, str_arguments=texts),
+                canon=canon_labels(keysets) if any(len(ks) > 1 for ks in keysets) else None)
         return True
 
     nhist = 250 if not thorough else 4000
@@ -865,6 +891,8 @@ def run(chk):
             got = [g if i not in ign else "outside" for i, g in enumerate(got)]
             exp = [g if i not in ign else "outside" for i, g in enumerate(exp)]
             chk.count("tie-groups-outside-envelope(projected away)", len(ign))
+        if canons[len(per_seen) - 1] is not None:
+            got, exp = canons[len(per_seen) - 1](got), canons[len(per_seen) - 1](exp)
         if got != exp:
             bad += 1
             if cmd == 403 and len(got) == len(exp):
@@ -877,7 +905,7 @@ def run(chk):
                                   "raw_values_in_403": sum(len(e) // 3 for ln, e in zip(lines, expect) if ln.startswith("193 ")),
                                   "disagreements": bad}
     # in-Coq shard: small cases only
-    small = [i for i, ln in enumerate(lines) if len(ln) < 1500 and not ignores[i]]
+    small = [i for i, ln in enumerate(lines) if len(ln) < 1500 and not ignores[i] and canons[i] is None]
     idx = rng.sample(small, min(300, len(small)))
     shard = []
     for i in idx:
